@@ -1452,3 +1452,10 @@ mut("merge_find_largest_keeps_smaller", ["C04", "C03"], "MRG-1|versioning::file_
 mut("merge_find_largest_unmapped_index", ["C04", "C03"], "MRG-1|versioning::file_iterators::MergingIterator::find_largest|walk-covers-every-child", patch="merge_find_largest_unmapped_index.diff",
     note="index of the reversed walk stored unmapped: a different child becomes current")
 mut("merge_find_smallest_skips_first_child", ["C04", "C07"], "MRG-1|versioning::file_iterators::MergingIterator::find_smallest|walk-covers-every-child", patch="merge_find_smallest_skips_first_child.diff")
+mut("level0_trigger_above_stop", ["C09"], "TRIG-1|db::DB::make_room_for_write|a-stalled-writer-has-a-due-compaction", patch="level0_trigger_above_stop.diff",
+    note="compaction trigger 16 > stop trigger 12: writers park at 12 level-0 files with no compaction due")
+mut("level0_scored_by_bytes", ["C09"], "TRIG-1|versioning::version::Version::finalize|level-0-scored-by-file-count", patch="level0_scored_by_bytes.diff")
+mut("list_remove_tail_not_updated", ["C11", "C03"], "LST-1|utils::linked_list::LinkedList::<T>::remove_node|tail=predecessor", patch="list_remove_tail_not_updated.diff",
+    note="removing the newest node leaves `tail` pointing at it: later pushes hang off a removed node and are invisible from the head")
+mut("list_remove_prev_link_not_repaired", ["C11", "C03"], "LST-1|utils::linked_list::LinkedList::<T>::remove_node|successor.prev=node.prev", patch="list_remove_prev_link_not_repaired.diff")
+mut("list_push_old_tail_not_linked", ["C11", "C03"], "LST-1|utils::linked_list::LinkedList::<T>::push_node|oldtail.next=node", patch="list_push_old_tail_not_linked.diff")
